@@ -278,6 +278,10 @@ impl<'a> JsonValueTrait for LazyValue<'a> {
     }
 
     fn as_raw_number(&self) -> Option<RawNumber> {
+        // (a `RawNumber` can also be read from a JSON string holding a number: not what is asked here)
+        if !self.is_number() {
+            return None;
+        }
         from_str(self.as_raw_str()).ok()
     }
 
